@@ -42,7 +42,7 @@ THOROUGH = [('Calls_req3.cfg', 'all kinds, <=3 inputs x 12 declarations x suppli
             ('Calls_req_spell.cfg', 'all kinds, <=2 inputs, every declared spelling x every call spelling'),
             ('Calls_types.cfg', 'reusable workflow, <=2 typed inputs (required/default variants) x 11 value kinds'),
             ('Calls_wfreq2.cfg', 'reusable workflow, <=2 inputs and a secret x every spelling of required: x default absent/value'),
-            ('Calls_values2.cfg', 'reusable workflow, <=2 inputs x 4 declared types x 37 value kinds (styles x classes, placeholders)')]
+            ('Calls_values2.cfg', 'reusable workflow, <=2 inputs x 4 declared types x 43 value kinds (styles x classes, placeholders)')]
 
 
 def dkey(ds):
